@@ -308,9 +308,9 @@ func build(d M) (*built, error) {
 		api.RegisterAuth(s, authenticator(s, drv.Str(kinds[s]), nil))
 	}
 	api.RegisterAuth("D", authenticator("D", "func", &outcome{K: "ok", P: "pD"}))
-	switch mode := drv.Str(d["authz"]); mode {
-	case "allow", "deny", "denyStatus":
-		api.RegisterAuthorizer(runtime.AuthorizerFunc(func(_ *http.Request, p interface{}) error {
+	// the authorizer of the configuration, and a permissive one it may replace
+	authorizer := func(mode string) runtime.Authorizer {
+		return runtime.AuthorizerFunc(func(_ *http.Request, p interface{}) error {
 			if cur != nil {
 				cur.w.Event("authz_call", M{"principal": principalList(p)})
 			}
@@ -321,7 +321,19 @@ func build(d M) (*built, error) {
 				return errors.New(451, "authz-own")
 			}
 			return nil
-		}))
+		})
+	}
+	// build order: the authorizer is registered before NewContext, or after NewContext but before the handler
+	// (and with it the router) is built, possibly replacing a permissive one registered earlier
+	mode, order := drv.Str(d["authz"]), drv.Str(d["authz_order"])
+	if mode != "none" {
+		switch order {
+		case "after":
+		case "replace":
+			api.RegisterAuthorizer(authorizer("allow"))
+		default:
+			api.RegisterAuthorizer(authorizer(mode))
+		}
 	}
 	handler := runtime.OperationHandlerFunc(func(interface{}) (interface{}, error) {
 		if cur != nil {
@@ -353,6 +365,9 @@ func build(d M) (*built, error) {
 		errors.ServeError(rw, r, err)
 	}
 	ctx := middleware.NewContext(doc, api, nil)
+	if mode != "none" && (order == "after" || order == "replace") {
+		api.RegisterAuthorizer(authorizer(mode))
+	}
 	return &built{ctx: ctx, handler: ctx.RoutesHandler(nil)}, nil
 }
 
@@ -529,6 +544,11 @@ func structureOf(schemes []string, alts, avail, authz any, idx int) M {
 	}
 	d["kinds"] = kinds
 	d["undef"] = undef
+	// when the authorizer is registered relative to NewContext (always before the handler is built)
+	d["authz_order"] = "before"
+	if drv.Str(d["authz"]) != "none" {
+		d["authz_order"] = []string{"before", "after", "replace"}[(idx/4)%3]
+	}
 	return d
 }
 
